@@ -116,6 +116,10 @@ class Harness(cm.BaseB):
                 V.append(("C15/shape", f"{what}: input shape {shape_of(val)}, output shape {r.shape}"))
                 return None
             fl = [str(x) for x in r.flatten()]
+            try:
+                r[...] = "Q00"  # results belong to the caller
+            except Exception:
+                pass
             if res is not None and fl != res:
                 V.append(("C15/list-vs-array", f"{what}: list and ndarray input give different results"))
             res = fl
